@@ -60,6 +60,11 @@ func bootParse(text []byte) (g *ast.Grammar, err error, panicked any) {
 	return g, err, nil
 }
 
+// agreeOnly: compare the two front-ends with each other only, not with the grammar that was printed (C20 is about their
+// AGREEMENT; with an avoidance lifted both may deviate from the printed grammar in the same, listed way - finding F2 - and
+// must still agree: round 21, a single-quoted byte escape widened to a rune by the bootstrap parser only)
+var agreeOnly bool
+
 // compare runs both front-ends on text. want may be nil (repository files).
 func compare(srv *pvpeg.Server, text string, want *ast.Grammar, fail func(kind, detail string)) {
 	bg, berr, bp := bootParse([]byte(text))
@@ -92,7 +97,7 @@ func compare(srv *pvpeg.Server, text string, want *ast.Grammar, fail func(kind, 
 		fail("ast-mismatch", "the two front-ends differ\nboot   "+bd+"\npigeon "+pd)
 		return
 	}
-	if want != nil {
+	if want != nil && !agreeOnly {
 		wd := pvpeg.Dump(pvpeg.UnquoteDisplayNames(pvpeg.Clone(want)), false)
 		if bd != "" && bd != wd {
 			fail("ast-mismatch", "bootstrap parser deviates from the printed grammar\nboot "+bd+"\nwant "+wd)
@@ -106,6 +111,7 @@ func main() {
 	seed := flag.Int64("seed", 1, "random seed (all randomness derives from it)")
 	n := flag.Int("n", 1000, "number of grammars")
 	pigeon := flag.String("pigeon", "/verif/build/bin/pigeon", "pigeon binary built with -tags verif")
+	flag.BoolVar(&agreeOnly, "agree-only", false, "compare the two front-ends with each other only, not with the printed grammar")
 	includeKnown := flag.Bool("include-known", false, "lift the known-defect avoidance")
 	lift := flag.String("lift", "", "lift single avoidances: comma-separated list of "+strings.Join(pvpeg.AvoidNames(), ","))
 	out := flag.String("out", "/tmp/pvt.pvboot.out", "directory for failing inputs")
